@@ -426,7 +426,13 @@ func main() {
 		for _, f := range res.fs {
 			sum.FailKey("oracle", f.key, f.what, map[string]any{"ticker": s, "observed": res.o})
 		}
-		cases.AddDesc(coqCase(s, res.o), replayDoc{Ticker: &scripts[i]})
+		if len(res.fs) == 0 {
+			cases.AddDesc(coqCase(s, res.o), replayDoc{Ticker: &scripts[i]})
+		} else {
+			// a run that the model-independent oracle rejected four times is reported above as an oracle failure with its
+			// replay (the framework re-runs it); it is not a valid observation to compare the model with
+			sum.Dist("runs_rejected_by_the_oracle_reported_not_compared_in_coq")
+		}
 		key, _ := json.Marshal(s)
 		sum.Count(string(key), len(s.ExpectLate) > 0)
 		sum.Dist("pattern_" + s.Name)
@@ -478,7 +484,7 @@ const ruleText = "the real time.NewTicker(period) (period 40-120 ms) and a consu
 	"oracle without the model: every value within tolerance of a multiple >= 1 of the period, indices strictly increasing, no receive before the tick's instant, never two receives without " +
 	"a tick instant in between, at most one overdue tick per wake-up, and by construction of the script: a tick whose instant lies inside no busy interval arrives at its instant, the first " +
 	"tick inside a busy interval arrives when the interval ends, the other ticks inside it never arrive; a run the oracle rejects is repeated before it counts: once as it is, then up to twice with all times of the script multiplied by 3; " +
-	"Coq: Model/TickerCheck.v evaluates consumed / dropped of Model/Ticker.v on frees_of_busy of the script and compares delivered indices, times (same tolerance) and lost indices; " +
+	"a run rejected every time is reported as an oracle failure with its replay and is not compared in Coq; Coq: Model/TickerCheck.v evaluates consumed / dropped of Model/Ticker.v on frees_of_busy of the script and compares delivered indices, times (same tolerance) and lost indices; " +
 	"non-trivial = at least one tick is overdue; distinct by the full script"
 
 func doReplay(path string) int {
